@@ -27,7 +27,7 @@ P = {
    text="Generated sessions of position/ucinewgame commands with legal move lists and single-move corruptions; after every command the session board must equal the model (last accepted position) and corrupted commands must be refused as a whole; the same sessions over the real binary are probed with a short search whose bestmove must be legal in the model position and in no other candidate.",
    note="Rules oracle + session model; in-process layer uses hook H4 which runs the same parser/executor as uci_loop.", ref="5 C08"),
  "C09": dict(cat="exploration", tech="property-based testing of the real engine process over generated (position, limit-combination) sessions with a legality and deadline oracle",
-   text="Sessions of 1..5 go commands with any mix of depth/nodes/movetime/clock/increment limits including 0, 1 and tiny budgets; exactly one legal bestmove before limit+2 s, then readyok.",
+   text="Sessions of 1..5 go commands with any mix of depth/nodes/movetime/clock/increment limits including 0, 1 and tiny budgets; exactly one legal bestmove before limit+3 s, then readyok.",
    note="Rules oracle for legality; deadlines are generous stand-ins for 'in time'; harness-side failures are exit 2.", ref="5 C09"),
  "C10": dict(cat="exploration", tech="schedule-forcing property-based testing: generated command scripts delivered at labelled search-thread events (cfg hook schedule points) on the real binary",
    text="Labelled schedule points hold each window named by the property open; the harness delivers stop/go/position/isready inside it by event and requires one legal bestmove per go, prompt end after stop and no refused conformant command.",
@@ -46,7 +46,7 @@ P = {
    note="Rules oracle for PV legality; mate distance not asserted.", ref="5 C14"),
  "C15": dict(cat="exploration", tech="grammar-based fuzzing of the UCI input with a liveness oracle (readyok, clean quit, exit on end-of-input)",
    text="Sessions of 1..25 lines from a grammar over the UCI vocabulary with dropped/duplicated/reordered/junk arguments, blank, over-long, non-ASCII and non-UTF-8 lines; the engine must stay alive and responsive, quit cleanly and terminate on end-of-input at any point.",
-   note="FEN arguments are always valid (the statement's assumption); 2 s stands in for 'promptly'.", ref="5 C15"),
+   note="FEN arguments are always valid (the statement's assumption); 3 s stands in for 'promptly'.", ref="5 C15"),
  "C16": dict(cat="exploration", tech="repetition testing: equality of (best move, score, nodes) across repeated in-process runs, separate processes and CPU load, and of the bench node total",
    text="Fixed-depth searches from an empty cache repeated in one process (with other searches in between), in separate processes and under 12 busy-loop processes; the real bench subcommand run concurrently; all results must be identical.",
    note="No oracle beyond equality; load is generated by the harness.", ref="5 C16"),
